@@ -50,7 +50,10 @@ HillL(coef, n) == SumSeq([i \in 1..Len(coef.A) |-> QMul(QPowN(QMul(TwoPiHi, QInt
 (*         =>  |f^(n)| <= sum_i n! sqrt(K_i)^n / (C_i sqrt(C_i)^n)                                                       *)
 ShekelL(coef, n) == SumSeq([i \in 1..Len(coef.K) |->
                       QDivR(QMul(QInt(Fact(n)), QPowN(QRootHi(coef.K[i], 2), n)), QMul(coef.C[i], QPowN(QRootLo(coef.C[i], 2), n)))])
-LOf(r, n) == IF r.fam = "Hill" THEN HillL(r.coef, n) ELSE ShekelL(r.coef, n)
+(* Rastrigin in one variable: g(t) = t^2 - 10 cos(2 pi t) + 10 on [a, b] *)
+RasL(r, n) == LET big == QMax(QAbs(r.a), QAbs(r.b)) IN
+                QAdd(IF n = 1 THEN QMul(Q2, big) ELSE IF n = 2 THEN Q2 ELSE Q0, QMul(QInt(10), QPowN(TwoPiHi, n)))
+LOf(r, n) == IF r.fam = "Hill" THEN HillL(r.coef, n) ELSE IF r.fam = "Shekel" THEN ShekelL(r.coef, n) ELSE RasL(r, n)
 
 ---------------------------------------------------------------------------
 (* cells: <<lo, hi, fl, fm, fr>> with fl = f(m - h), fm = f(m), fr = f(m + h), m = (lo + hi) / 2 *)
@@ -85,12 +88,13 @@ DP(pair, h) == QDivR(QSub(pair[2], pair[1]), QMul(Q2, h))
 
 ---------------------------------------------------------------------------
 (* verdict of a "min" certificate m for function record r with tolerances tv (value) and delta (location) *)
-MinVerdict(r, m, L, tv, delta) ==
+MinVerdict(r, m, L, tv, tvlow, delta) ==
+  \* tv: |f(x) - v| allowed; tvlow: how far below v the true minimum may lie; delta: distance of x from a global minimiser
   LET h == r.h  epsf == r.epsf
       e1 == E1(L, h, epsf)
       valueOK  == QLeq(QAbs(QSub(m.fdecl, m.v)), tv)
       valueBad == QLt(QAdd(tv, epsf), QAbs(QSub(m.fdecl, m.v)))
-      lowerBad == m.wit # <<>> /\ QLt(QAdd(m.wit[2], epsf), QSub(m.v, tv))      \* an observed value below the declared minimum
+      lowerBad == m.wit # <<>> /\ QLt(QAdd(m.wit[2], epsf), QSub(m.v, tvlow))   \* an observed value below the declared minimum
       uOK == /\ QLeq(QSub(m.x, delta), m.xl) /\ QLeq(m.xl, m.x) /\ QLeq(m.x, m.xr) /\ QLeq(m.xr, QAdd(m.x, delta))
              /\ QLeq(r.a, m.xl) /\ QLeq(m.xr, r.b) /\ QLeq(m.vlo, m.xl) /\ QLeq(m.xr, m.vhi) /\ QLeq(r.a, m.vlo) /\ QLeq(m.vhi, r.b)
       convOK == /\ m.mode = "convex" /\ Tiles(m.conv, m.vlo, m.vhi)
@@ -109,8 +113,8 @@ MinVerdict(r, m, L, tv, delta) ==
       (* lower bound of f on V: a convex function lies above its tangent at x (|y - x| <= delta on U, which holds the  *)
       (* minimiser); in the monotone case the minimum over V is the observed value at the domain end                 *)
       dipOK == IF m.mode = "convex"
-               THEN QLeq(QSub(m.v, tv), QSub(QSub(m.fdecl, epsf), QMul(QAdd(QAbs(DP(m.d, h)), e1), delta)))
-               ELSE QLeq(QSub(m.v, tv), QSub(m.fend, epsf))
+               THEN QLeq(QSub(m.v, tvlow), QSub(QSub(m.fdecl, epsf), QMul(QAdd(QAbs(DP(m.d, h)), e1), delta)))
+               ELSE QLeq(QSub(m.v, tvlow), QSub(m.fend, epsf))
       located == uOK /\ ((convOK /\ signOK) \/ monoOK) /\ coverOK
       (* refutation of the location: f' has one certified sign on all of [x - delta, x + delta] (within the domain) and the *)
       (* end towards which f decreases is not a domain end => no minimiser of f over [a, b] within delta of x             *)
@@ -142,8 +146,8 @@ LipVerdict(r, lp, L, rel) ==
 
 Verdict(r, L) ==
   [tid |-> r.tid, fam |-> r.fam, fn |-> r.fn,
-   min |-> IF "min" \in DOMAIN r THEN MinVerdict(r, r.min, L, r.tv, r.delta) ELSE <<>>,
-   max |-> IF "max" \in DOMAIN r THEN MinVerdict(r, r.max, L, r.tv, r.delta) ELSE <<>>,
+   min |-> IF "min" \in DOMAIN r THEN MinVerdict(r, r.min, L, r.tv, r.tvlow, r.delta) ELSE <<>>,
+   max |-> IF "max" \in DOMAIN r THEN MinVerdict(r, r.max, L, r.tv, r.tvlow, r.delta) ELSE <<>>,
    lip |-> IF "lip" \in DOMAIN r THEN LipVerdict(r, r.lip, L, r.rel) ELSE <<>>,
    L1  |-> QFloorInt(L[1])]
 
